@@ -54,14 +54,14 @@ impl EventProcessor for Client {
     fn on_task_notify(&mut self, _: TaskId, _: WorkerId, _: Box<[u8]>) {}
 }
 
-fn configuration() -> WorkerConfiguration {
+fn configuration(heartbeat_ms: u64) -> WorkerConfiguration {
     WorkerConfiguration {
         resources: ResourceDescriptor::new(vec![ResourceDescriptorItem { name: "cpus".into(), kind: ResourceDescriptorKind::simple_indices(1) }], Default::default()),
         listen_address: "".to_string(),
         hostname: "h".to_string(),
         group: "g".to_string(),
         work_dir: Default::default(),
-        heartbeat_interval: Duration::from_millis(200),
+        heartbeat_interval: Duration::from_millis(heartbeat_ms),
         overview_configuration: Default::default(),
         idle_timeout: None,
         on_server_lost: ServerLostPolicy::Stop,
@@ -89,9 +89,9 @@ struct Outcome {
     alive: bool,
 }
 
-async fn register(address: SocketAddr) -> (ConnectionDescriptor, u32) {
+async fn register(address: SocketAddr, heartbeat_ms: u64) -> (ConnectionDescriptor, u32) {
     let mut c = connect_to_server_and_authenticate(&[address], None).await.unwrap();
-    let message = ConnectionRegistration::Worker(RegisterWorker { configuration: configuration() });
+    let message = ConnectionRegistration::Worker(RegisterWorker { configuration: configuration(heartbeat_ms) });
     let data = serialize(&message).unwrap().into();
     c.sender.send(seal_message(&mut c.sealer, data)).await.unwrap();
     let data = c.receiver.next().await.unwrap().unwrap();
@@ -150,13 +150,15 @@ fn run_case(kind: &str, pre: bool, other: bool) -> Outcome {
         server.set_client_events(Box::new(Client(ev2)));
         let handle = tokio::task::spawn_local(fut);
         let address = SocketAddr::new(Ipv4Addr::LOCALHOST.into(), server.get_worker_listen_port());
-        let (mut victim, wid) = register(address).await;
+        // the worker under test announces a 200 ms heartbeat (its silence is noticed within about a second)
+        let (mut victim, wid) = register(address, 200).await;
         if pre {
             // a task is assigned to the worker before it goes away
             submit(&server, 1);
             let _ = saw_compute(&mut victim, 1, 400).await;
         }
-        let mut healthy = if other { Some(register(address).await.0) } else { None };
+        // the healthy worker announces a long heartbeat interval: a loaded machine must not make it look lost
+        let mut healthy = if other { Some(register(address, 20_000).await.0) } else { None };
         // ---- the connection ends
         match kind.as_str() {
             "eof" => {
